@@ -56,12 +56,24 @@ static int cmp_i64(const void* a, const void* b) { int64_t x = *(const int64_t*)
 static Vec ev_iss, ev_ret, ev_upd; static size_t ev_rawd;
 
 struct Probe { int64_t pay; uint64_t tok; int64_t* block; };
+/* a second, larger element type: the owned pointer and the token lie beyond the first 16 bytes, guard words around the
+   core — used as key or value next to the small probe so that byte-wise relocation (Table rehash / displacement /
+   backward shift, Tree predecessor copy, Array memmove) of differently sized slots is exercised; a copy that moves
+   only part of an element leaves a hybrid that the guards, the block and the ledger expose */
+struct Big { int64_t id; int64_t pad; struct Probe c; int64_t tail; };
+#define PAD_MAGIC 0x5A5A5A5A5A5A5A5ALL
+#define TAIL_MAGIC 0x3C3C3C3C3C3C3C3CLL
 
 static void Probe_New(var self, var args);
 static void Probe_Del(var self);
 static void Probe_Assign(var self, var obj);
 static int Probe_Cmp(var self, var obj);
 static uint64_t Probe_Hash(var self);
+static void Big_New(var self, var args);
+static void Big_Del(var self);
+static void Big_Assign(var self, var obj);
+static int Big_Cmp(var self, var obj);
+static uint64_t Big_Hash(var self);
 
 var Probe = Cello(Probe,
   Instance(New, Probe_New, Probe_Del),
@@ -69,9 +81,23 @@ var Probe = Cello(Probe,
   Instance(Cmp, Probe_Cmp),
   Instance(Hash, Probe_Hash));
 
-static void Probe_Assign(var self, var obj) {
-  struct Probe* d = self; struct Probe* s = cast(obj, Probe);
-  int64_t pay = s->pay;
+var Big = Cello(Big,
+  Instance(New, Big_New, Big_Del),
+  Instance(Assign, Big_Assign),
+  Instance(Cmp, Big_Cmp),
+  Instance(Hash, Big_Hash));
+
+/* the core of an element of either type (arguments may be of either type: the elements are convertible) */
+static struct Probe* core_of(var obj) {
+  if (type_of(obj) is Big) return &((struct Big*)obj)->c;
+  return cast(obj, Probe);
+}
+static int big_guards_ok(struct Big* g) {
+  if (g->c.tok == 0) return g->id == 0 && g->pad == 0 && g->tail == 0 && g->c.pay == 0 && g->c.block == NULL;
+  return g->id == g->c.pay && g->pad == PAD_MAGIC && g->tail == (int64_t)(TAIL_MAGIC ^ (int64_t)g->c.tok);
+}
+
+static void core_assign(struct Probe* d, int64_t pay, var self) {
   if (d->tok == 0) {                                   /* zero-filled memory: construct */
     if (d->block != NULL || d->pay != 0) X("sig=own-corrupt line=%zu what=assign into memory that is neither zero-filled nor a constructed element", cur_line);
     if (led_n + 2 > led_cap) { led_cap = led_cap ? led_cap * 2 : 1024; led = realloc(led, led_cap * sizeof(TokRec)); }
@@ -91,10 +117,7 @@ static void Probe_Assign(var self, var obj) {
   }
 }
 
-static void Probe_New(var self, var args) { Probe_Assign(self, get(args, $I(0))); }
-
-static void Probe_Del(var self) {
-  struct Probe* p = self;
+static void core_del(struct Probe* p) {
   if (p->tok == 0) {                                   /* destructor on zero-filled memory */
     ev_rawd++;
     if (p->block) X("sig=own-corrupt line=%zu what=zero-token element owns a block", cur_line);
@@ -110,24 +133,44 @@ static void Probe_Del(var self) {
   vpush(&ev_ret, p->pay);
 }
 
+static void Probe_Assign(var self, var obj) { core_assign(self, core_of(obj)->pay, self); }
+static void Probe_New(var self, var args) { Probe_Assign(self, get(args, $I(0))); }
+static void Probe_Del(var self) { core_del(self); }
 static int Probe_Cmp(var self, var obj) {
-  struct Probe* a = self; struct Probe* b = cast(obj, Probe);
+  struct Probe* a = self; struct Probe* b = core_of(obj);
   return (a->pay > b->pay) - (a->pay < b->pay);
 }
 static uint64_t Probe_Hash(var self) { struct Probe* a = self; return (uint64_t)(a->pay % 16) * 37u; }
 
-/* a probe argument object (like `$(Probe, pay, 0, NULL)`, but usable in loops) */
-typedef struct { char mem[sizeof(struct Header) + sizeof(struct Probe)]; } ArgBuf;
-static var mk_arg(ArgBuf* b, int64_t pay) {
+static void Big_Assign(var self, var obj) {
+  struct Big* g = self; int64_t pay = core_of(obj)->pay;
+  if (!big_guards_ok(g)) X("sig=own-corrupt line=%zu what=guard words of a large element (token %llu) are damaged before assignment", cur_line, (unsigned long long)g->c.tok);
+  core_assign(&g->c, pay, self);
+  g->id = g->c.pay; g->pad = PAD_MAGIC; g->tail = (int64_t)(TAIL_MAGIC ^ (int64_t)g->c.tok);
+}
+static void Big_New(var self, var args) { Big_Assign(self, get(args, $I(0))); }
+static void Big_Del(var self) {
+  struct Big* g = self;
+  if (!big_guards_ok(g)) X("sig=own-corrupt line=%zu what=guard words of a large element (token %llu) are damaged at destruction", cur_line, (unsigned long long)g->c.tok);
+  core_del(&g->c);
+}
+static int Big_Cmp(var self, var obj) { return Probe_Cmp(&((struct Big*)self)->c, obj); }
+static uint64_t Big_Hash(var self) { return Probe_Hash(&((struct Big*)self)->c); }
+
+/* an argument object of either element type (like `$(Probe, pay, 0, NULL)`, but usable in loops) */
+typedef struct { char mem[sizeof(struct Header) + sizeof(struct Big)]; } ArgBuf;
+static var mk_arg_t(ArgBuf* b, int64_t pay, int big) {
   memset(b, 0, sizeof *b);
+  if (big) { struct Big* g = header_init((struct Header*)b->mem, Big, AllocStack); g->c.pay = pay; g->id = pay; return g; }
   struct Probe* p = header_init((struct Header*)b->mem, Probe, AllocStack);
   p->pay = pay; return p;
 }
+static var mk_arg(ArgBuf* b, int64_t pay) { return mk_arg_t(b, pay, 0); }
 
 /* ------------------------------------------------------------------------------------------------ containers */
 #define NC 64
 enum { K_NONE = 0, K_ARR = 'A', K_LST = 'L', K_TBL = 'T', K_TRE = 'R', K_BARR = 'B', K_CELL = 'X' };
-typedef struct { int kind; Vec a, b, seen; } Shadow;         /* reference: seq payloads in a (-1 = zero-filled); map keys a / values b */
+typedef struct { int kind; int kt, vt; Vec a, b, seen; } Shadow;   /* kt/vt: element (key) / value type, 1 = Big */         /* reference: seq payloads in a (-1 = zero-filled); map keys a / values b */
 static Shadow sh[NC];
 static int is_seq(int k) { return k == K_ARR || k == K_LST || k == K_BARR; }
 static int is_map(int k) { return k == K_TBL || k == K_TRE; }
@@ -139,8 +182,11 @@ typedef struct { WEl* v; size_t n, cap; } WVec;
 static void wpush(WVec* x, uint64_t tok, int64_t code) { if (x->n == x->cap) { x->cap = x->cap ? x->cap * 2 : 64; x->v = realloc(x->v, x->cap * sizeof(WEl)); } x->v[x->n].tok = tok; x->v[x->n].code = code; x->n++; }
 
 static void walk_probe(WVec* out, var item) {
-  struct Probe* p = item;
+  struct Probe* p = core_of(item);
+  if (type_of(item) is Big && !big_guards_ok(item))
+    X("sig=own-corrupt line=%zu what=guard words of a stored large element (token %llu) are damaged: the element was moved only in part", cur_line, (unsigned long long)p->tok);
   if (p->tok == 0) { wpush(out, 0, 0); return; }
+  if (p->tok > led_n) { X("sig=own-corrupt line=%zu what=stored element carries token %llu that was never issued", cur_line, (unsigned long long)p->tok); wpush(out, 0, 1); return; }
   wpush(out, p->tok, p->pay + 2);
 }
 static void walk_box(WVec* out, var item) {
